@@ -5,6 +5,8 @@
     or uuid);
  R2 get_estimates binds a freshly constructed model and results handler on every path before any use;
  R3 no order-sensitive consumption of an unordered set (hash-seed dependence) in reachable code;
+ R6 cache round trip: what save_data writes to the local preprocessed file (read back as input by later runs) is restricted to the
+    columns captured in load_data from the incoming frame, not this run's derived columns (F34);
  R4 caller-owned arguments of the entry points are not mutated in place (a second run with the same objects would
     otherwise see different arguments);
  R5 nothing written during a run outlives the client: no function fills a class-level or module-level container, no memoising
@@ -553,6 +555,40 @@ def check(ctx):
                    else f"caller-owned argument '{p}' is modified in place: {hits[0][1]} - a second run given the same object "
                         f"sees different data")
     ctx.count("C12.R4.functions_summarised", len(mu._sum))
+
+    # ---- R6 the local data file round-trips -----------------------------------------------------------
+    # "before or after other runs with different arguments": the one piece of state that outlives a run on purpose is the local copy of
+    # the preprocessed data, which PreprocessedDataHandler.get_data reads back as INPUT when no data is passed. If a run writes its
+    # working frame there, the columns it derived for ITS estimands (baseline_margin, baseline_normalized_margin, last_election_results_*)
+    # become input columns of later runs with other estimands (the outlier model picks its regressors by column presence). So what
+    # save_data writes has to be restricted to the columns that were loaded - captured before anything is derived.
+    from .. import ir as _ir
+    PD = "elexmodel.handlers.data.PreprocessedData"
+    sd = ctx.fn(PD, "PreprocessedDataHandler.save_data")
+    ld = ctx.fn(PD, "PreprocessedDataHandler.load_data")
+    bld = ctx.builder(inline=lambda *a_: False)
+    sds, lds = bld.summarize(sd), bld.summarize(ld)
+    SELF_ = ("param", "self")
+    writes = [t for _, t, _ in sds.effects if t[0] == "call" and t[1][0] == "attr" and t[1][2] == "to_csv"]
+    ctx.sites("C12.R6", len(writes), 1, "to_csv of the local preprocessed data file")
+    captured = set()
+    for w in lds.attr_writes:
+        v = w[2]
+        while v[0] == "call" and v[1] in (("global", "list"), ("global", "tuple"), ("global", "set")) and len(v[2]) == 1:
+            v = v[2][0]
+        if v[0] == "attr" and v[2] == "columns" and v[1][0] == "param" and v[1][1] != "self":
+            captured.add(w[1])
+    for w in writes:
+        recv = w[1][1]
+        sel = None
+        if recv[0] == "sub":
+            sel = {x[2] for x in _ir.walk(recv[2]) if x[0] == "attr" and x[1] == SELF_}
+        ok = bool(sel) and bool(sel & captured)
+        ctx.ob("C12.R6.cache-roundtrip", f"{sd.qualname}|the local file holds the columns that were loaded", ok, sd.where(),
+               f"the frame written to the local data file is restricted to self.{sorted(sel & captured)[0]}, captured in load_data from the incoming "
+               f"frame before any column is derived" if ok else
+               "the working frame is written to the local data file as it is: the columns derived for this run's estimands come back as input "
+               "columns of later runs (equal arguments, different tables once another run has saved its data)")
 
 
 _REPO = []
